@@ -178,7 +178,8 @@ where
 {
     let slice = json.to_u8_slice();
     let reader = Read::new(slice, false);
-    let mut parser = Parser::new(reader);
+    let mut parser =
+        Parser::new(reader).with_config(crate::config::DeserializeCfg::from_features());
     let (sub, status) = parser.get_from_with_iter_unchecked(path)?;
     Ok(LazyValue::new(json.from_subset(sub), status.into()))
 }
@@ -231,7 +232,8 @@ where
 {
     let slice = json.to_u8_slice();
     let reader = Read::new(slice, false);
-    let mut parser = Parser::new(reader);
+    let mut parser =
+        Parser::new(reader).with_config(crate::config::DeserializeCfg::from_features());
     parser.get_many(tree, false)
 }
 
@@ -402,7 +404,8 @@ where
 {
     let slice = json.to_u8_slice();
     let reader = Read::new(slice, false);
-    let mut parser = Parser::new(reader);
+    let mut parser =
+        Parser::new(reader).with_config(crate::config::DeserializeCfg::from_features());
     let (sub, status) = parser.get_from_with_iter(path)?;
     let lv = LazyValue::new(json.from_subset(sub), status.into());
 
@@ -456,7 +459,8 @@ where
 {
     let slice = json.to_u8_slice();
     let reader = Read::new(slice, false);
-    let mut parser = Parser::new(reader);
+    let mut parser =
+        Parser::new(reader).with_config(crate::config::DeserializeCfg::from_features());
     let nodes = parser.get_many(tree, true)?;
 
     // validate the utf-8 if slice
